@@ -201,92 +201,94 @@ theorem runInvOk_step (s s' : St) (e : Ev) (h : RunInvOk s) (hs : step s e = som
 /-! ## cancelled contexts, target flag -/
 
 theorem startResolve_misc (s0 : St) :
-    (startResolve s0).dead = s0.dead ∧ (startResolve s0).tgt = s0.tgt := by
+    (startResolve s0).dead = s0.dead ∧ ((startResolve s0).tgt = s0.tgt ∧ (startResolve s0).tgtE = s0.tgtE) := by
   rw [startResolve_eq]; split <;> simp [spawned]
 
 theorem afterRemove_misc (s0 : St) :
-    (afterRemove s0).dead = s0.dead ∧ (afterRemove s0).tgt = s0.tgt := by
+    (afterRemove s0).dead = s0.dead ∧ ((afterRemove s0).tgt = s0.tgt ∧ (afterRemove s0).tgtE = s0.tgtE) := by
   unfold afterRemove; split
   · split
     · simp
-    · exact ⟨rfl, rfl⟩
-  · exact ⟨rfl, rfl⟩
+    · exact ⟨rfl, rfl, rfl⟩
+  · exact ⟨rfl, rfl, rfl⟩
 
 theorem misc_frame (s s' : St) (e : Ev) (hs : step s e = some s') :
     ((∀ c, e ≠ .envCancelCtx c) → s'.dead = s.dead) ∧ (∀ c, e = .envCancelCtx c → s'.dead = c :: s.dead) ∧
-    ((∀ k c t, e ≠ .cfg k c t) → s'.tgt = s.tgt) ∧ (∀ k c t, e = .cfg k c t → s'.tgt = t) := by
-  have triv : s'.dead = s.dead → s'.tgt = s.tgt → (∀ c, e ≠ .envCancelCtx c) → (∀ k c t, e ≠ .cfg k c t) →
+    ((∀ k c t, e ≠ .cfg k c t) → s'.tgt = s.tgt ∧ s'.tgtE = s.tgtE) ∧
+    (∀ k c t, e = .cfg k c t → s'.tgt = cfgTgt t ∧ s'.tgtE = cfgTgtE t) := by
+  have triv : s'.dead = s.dead → (s'.tgt = s.tgt ∧ s'.tgtE = s.tgtE) → (∀ c, e ≠ .envCancelCtx c) → (∀ k c t, e ≠ .cfg k c t) →
       ((∀ c, e ≠ .envCancelCtx c) → s'.dead = s.dead) ∧ (∀ c, e = .envCancelCtx c → s'.dead = c :: s.dead) ∧
-      ((∀ k c t, e ≠ .cfg k c t) → s'.tgt = s.tgt) ∧ (∀ k c t, e = .cfg k c t → s'.tgt = t) :=
+      ((∀ k c t, e ≠ .cfg k c t) → s'.tgt = s.tgt ∧ s'.tgtE = s.tgtE) ∧
+    (∀ k c t, e = .cfg k c t → s'.tgt = cfgTgt t ∧ s'.tgtE = cfgTgtE t) :=
     fun h1 h2 n1 n2 => ⟨fun _ => h1, fun c he => absurd he (n1 c), fun _ => h2, fun k c t he => absurd he (n2 k c t)⟩
   cases e with
   | cfg kp c t =>
     simp only [step] at hs; split at hs <;> simp at hs
     subst hs
-    exact ⟨fun _ => rfl, (by intro c he; cases he), fun h => absurd rfl (h kp c t), (by intro k c' t' he; cases he; rfl)⟩
+    exact ⟨fun _ => rfl, (by intro c he; cases he), fun h => absurd rfl (h kp c t), (by intro k c' t' he; cases he; exact ⟨rfl, rfl⟩)⟩
   | envCancelCtx c =>
     simp only [step] at hs; split at hs <;> simp at hs; subst hs
-    exact ⟨fun h => absurd rfl (h c), (by intro c' he; cases he; rfl), fun _ => rfl, (by intro k c' t' he; cases he)⟩
+    exact ⟨fun h => absurd rfl (h c), (by intro c' he; cases he; rfl), fun _ => ⟨rfl, rfl⟩, (by intro k c' t' he; cases he)⟩
   | relRun r =>
     simp only [step] at hs; split at hs <;> try simp at hs
     split at hs <;> try simp at hs
     split at hs <;> simp at hs <;> obtain ⟨_, rfl⟩ := hs
     · have := startResolve_misc { s with relRuns := s.relRuns.eraseIdx r, owner := .other }
       exact triv this.1 this.2 (by simp) (by simp)
-    · exact triv rfl rfl (by simp) (by simp)
+    · exact triv rfl ⟨rfl, rfl⟩ (by simp) (by simp)
   | envReleased k =>
     simp only [step] at hs; split at hs <;> simp at hs; subst hs
-    exact triv rfl rfl (by simp) (by simp)
-  | invAddRef a kd => simp only [step] at hs; split at hs <;> simp at hs; subst hs; exact triv rfl rfl (by simp) (by simp)
-  | invHook a => simp only [step] at hs; split at hs <;> simp at hs; subst hs; exact triv rfl rfl (by simp) (by simp)
+    exact triv rfl ⟨rfl, rfl⟩ (by simp) (by simp)
+  | invAddRef a kd => simp only [step] at hs; split at hs <;> simp at hs; subst hs; exact triv rfl ⟨rfl, rfl⟩ (by simp) (by simp)
+  | invHook a => simp only [step] at hs; split at hs <;> simp at hs; subst hs; exact triv rfl ⟨rfl, rfl⟩ (by simp) (by simp)
   | retAddRef a =>
     simp only [step] at hs; split at hs <;> try simp at hs
-    obtain ⟨_, rfl⟩ := hs; exact triv rfl rfl (by simp) (by simp)
+    obtain ⟨_, rfl⟩ := hs; exact triv rfl ⟨rfl, rfl⟩ (by simp) (by simp)
   | invRelease b r =>
     simp only [step] at hs; split at hs <;> try simp at hs
     split at hs <;> try simp at hs
-    subst hs; exact triv rfl rfl (by simp) (by simp)
+    subst hs; exact triv rfl ⟨rfl, rfl⟩ (by simp) (by simp)
   | relSwap b =>
     simp only [step] at hs; split at hs <;> try simp at hs
-    split at hs <;> simp at hs <;> subst hs <;> exact triv rfl rfl (by simp) (by simp)
+    split at hs <;> simp at hs <;> subst hs <;> exact triv rfl ⟨rfl, rfl⟩ (by simp) (by simp)
   | retRelease b =>
     simp only [step] at hs; split at hs <;> try simp at hs
-    obtain ⟨_, rfl⟩ := hs; exact triv rfl rfl (by simp) (by simp)
+    obtain ⟨_, rfl⟩ := hs; exact triv rfl ⟨rfl, rfl⟩ (by simp) (by simp)
   | selfRelSwap a =>
     simp only [step] at hs; split at hs <;> try simp at hs
     obtain ⟨_, hs⟩ := hs
-    split at hs <;> simp at hs <;> subst hs <;> exact triv rfl rfl (by simp) (by simp)
-  | invSetCtx a c cl => simp only [step] at hs; split at hs <;> simp at hs; subst hs; exact triv rfl rfl (by simp) (by simp)
+    split at hs <;> simp at hs <;> subst hs <;> exact triv rfl ⟨rfl, rfl⟩ (by simp) (by simp)
+  | invSetCtx a c cl => simp only [step] at hs; split at hs <;> simp at hs; subst hs; exact triv rfl ⟨rfl, rfl⟩ (by simp) (by simp)
   | retSetCtx a u =>
     simp only [step] at hs; split at hs <;> try simp at hs
-    obtain ⟨_, rfl⟩ := hs; exact triv rfl rfl (by simp) (by simp)
-  | quiesce B => simp only [step] at hs; split at hs <;> simp at hs; subst hs; exact triv rfl rfl (by simp) (by simp)
-  | probe v er => simp only [step] at hs; split at hs <;> simp at hs; subst hs; exact triv rfl rfl (by simp) (by simp)
+    obtain ⟨_, rfl⟩ := hs; exact triv rfl ⟨rfl, rfl⟩ (by simp) (by simp)
+  | quiesce B => simp only [step] at hs; split at hs <;> simp at hs; subst hs; exact triv rfl ⟨rfl, rfl⟩ (by simp) (by simp)
+  | probe v er => simp only [step] at hs; split at hs <;> simp at hs; subst hs; exact triv rfl ⟨rfl, rfl⟩ (by simp) (by simp)
   | cb it =>
     simp only [step] at hs; split at hs <;> try simp at hs
-    obtain ⟨_, rfl⟩ := hs; exact triv rfl rfl (by simp) (by simp)
+    obtain ⟨_, rfl⟩ := hs; exact triv rfl ⟨rfl, rfl⟩ (by simp) (by simp)
   | enter j k =>
     simp only [step] at hs; split at hs <;> try simp at hs
-    obtain ⟨_, rfl⟩ := hs; exact triv rfl rfl (by simp) (by simp)
+    obtain ⟨_, rfl⟩ := hs; exact triv rfl ⟨rfl, rfl⟩ (by simp) (by simp)
   | giveUp j =>
     simp only [step] at hs; split at hs <;> try simp at hs
-    obtain ⟨_, rfl⟩ := hs; exact triv rfl rfl (by simp) (by simp)
+    obtain ⟨_, rfl⟩ := hs; exact triv rfl ⟨rfl, rfl⟩ (by simp) (by simp)
   | drained j =>
     simp only [step] at hs; split at hs <;> try simp at hs
-    obtain ⟨_, rfl⟩ := hs; exact triv rfl rfl (by simp) (by simp)
+    obtain ⟨_, rfl⟩ := hs; exact triv rfl ⟨rfl, rfl⟩ (by simp) (by simp)
   | leave j k v hr er =>
     simp only [step] at hs; split at hs <;> try simp at hs
-    obtain ⟨_, rfl⟩ := hs; exact triv rfl rfl (by simp) (by simp)
+    obtain ⟨_, rfl⟩ := hs; exact triv rfl ⟨rfl, rfl⟩ (by simp) (by simp)
   | done j =>
     simp only [step] at hs; split at hs <;> try simp at hs
-    obtain ⟨_, rfl⟩ := hs; exact triv rfl rfl (by simp) (by simp)
+    obtain ⟨_, rfl⟩ := hs; exact triv rfl ⟨rfl, rfl⟩ (by simp) (by simp)
   | store j =>
     simp only [step] at hs; split at hs <;> try simp at hs
     split at hs <;> try simp at hs
     obtain ⟨_, hs⟩ := hs
     split at hs
-    · simp at hs; subst hs; exact triv rfl rfl (by simp) (by simp)
-    · split at hs <;> simp at hs <;> subst hs <;> exact triv rfl rfl (by simp) (by simp)
+    · simp at hs; subst hs; exact triv rfl ⟨rfl, rfl⟩ (by simp) (by simp)
+    · split at hs <;> simp at hs <;> subst hs <;> exact triv rfl ⟨rfl, rfl⟩ (by simp) (by simp)
   | addRefCS a =>
     simp only [step] at hs; split at hs <;> try simp at hs
     rename_i k ha
@@ -295,12 +297,12 @@ theorem misc_frame (s s' : St) (e : Ev) (hs : step s e = some s') :
     · simp at hs; subst hs
       have := startResolve_misc { s with th := s.th.set a (.ref k .done true false false none), owner := .thr a }
       exact triv this.1 this.2 (by simp) (by simp)
-    · split at hs <;> simp at hs <;> subst hs <;> exact triv rfl rfl (by simp) (by simp)
+    · split at hs <;> simp at hs <;> subst hs <;> exact triv rfl ⟨rfl, rfl⟩ (by simp) (by simp)
   | relCS b =>
     simp only [step] at hs; split at hs <;> try simp at hs
     rename_i r hb
     split at hs <;> try simp at hs
-    case h_2 => obtain ⟨_, rfl⟩ := hs; exact triv rfl rfl (by simp) (by simp)
+    case h_2 => obtain ⟨_, rfl⟩ := hs; exact triv rfl ⟨rfl, rfl⟩ (by simp) (by simp)
     rename_i k pc flag self told hr
     obtain ⟨_, rfl⟩ := hs
     have := afterRemove_misc { s with th := (s.th.set r (.ref k pc false flag self told)).set b (.rel r .done), owner := .thr b }
@@ -315,7 +317,7 @@ theorem misc_frame (s s' : St) (e : Ev) (hs : step s e = some s') :
     simp only [step] at hs; split at hs <;> try simp at hs
     rename_i c cl u ha
     split at hs <;> simp at hs <;> obtain ⟨_, rfl⟩ := hs
-    · exact triv rfl rfl (by simp) (by simp)
+    · exact triv rfl ⟨rfl, rfl⟩ (by simp) (by simp)
     · have := startResolve_misc { s with ctx := c, th := s.th.set a (.ctx c cl .done true), owner := .thr a }
       exact triv this.1 this.2 (by simp) (by simp)
 
